@@ -18,6 +18,35 @@ def tables():
     return _C
 
 
+_PIN = {}
+
+
+def pinned_layouts():
+    """{class: (size, [(field name, start, width, signed)], type byte)} read from Model/MsgSpec.lean"""
+    if not _PIN:
+        import os
+        import re
+        text = open(os.path.join(common.LEAN_DIR, "NetqasmVerif", "Model", "MsgSpec.lean")).read()
+        for m in re.finditer(r'⟨⟨"(\w+)", (\d+), \[(.*?)\]⟩, (\d+)⟩', text):
+            fields = [(f.group(1), int(f.group(2)), int(f.group(3)), f.group(4) == "true")
+                      for f in re.finditer(r'⟨"([\w.]+)", (\d+), (\d+), (true|false)⟩', m.group(3))]
+            _PIN[m.group(1)] = (int(m.group(2)), fields, int(m.group(4)))
+        if not _PIN:
+            raise RuntimeError("pinned message formats not found in Model/MsgSpec.lean")
+    return _PIN
+
+
+def pinned_width(cls_name, path, live_width, live_signed):
+    """width / signedness of a leaf as PINNED (the declared widths of the property); the live
+    descriptor's only if the pinned formats do not know the field"""
+    ent = pinned_layouts().get(cls_name)
+    if ent:
+        for name, _, w, sg in ent[1]:
+            if name == ".".join(path):
+                return w, sg
+    return live_width, live_signed
+
+
 def direction_of(cls_name):
     t = tables()
     if any(c == cls_name for _, c in t["host"]):
@@ -88,7 +117,8 @@ def field_values(width, signed, rng, n_random):
 def fixed_cases(rng, n_random, per_class):
     out = []
     for name, (c, size, lv, ty) in tables()["layouts"].items():
-        pools = [[ty] if path == ("type",) else field_values(w, s, rng, n_random) for path, _, w, s in lv]
+        pools = [[ty] if path == ("type",) else field_values(*pinned_width(name, path, w, s), rng, n_random)
+                 for path, _, w, s in lv]
         n = max(len(p) for p in pools)
         for t in range(max(n, per_class)):
             vals = []
@@ -238,20 +268,41 @@ def decode_order_tail(n=12):
     return list(_DECODE_ORDER[-n:])
 
 
-def guarded_decode(direction, raw):
-    """the real decoder on `raw`; never raises: (object or None, json or None, exception class or None).
-    Records the direction in the process-wide order of decoder calls (the two directions share the
-    module, so what one direction did before may matter for the other)."""
+BUFFER_KINDS = ["bytes", "bytearray", "memoryview-ro", "memoryview-rw"]
+
+
+def as_buffer(raw, kind):
+    """(what is handed to the decoder, the writable bytearray behind it or None)"""
+    if kind == "bytes":
+        return bytes(raw), None
+    if kind == "memoryview-ro":
+        return memoryview(bytes(raw)), None
+    buf = bytearray(raw)
+    return (buf if kind == "bytearray" else memoryview(buf)), buf
+
+
+def guarded_decode(direction, raw, arg=None):
+    """the real decoder on `raw` (or on the prepared buffer object `arg`); never raises: (object or
+    None, json or None, exception class or None).  Records the direction in the process-wide order of
+    decoder calls (the two directions share the module, so what one direction did before may matter
+    for the other)."""
     _DECODE_ORDER.append(direction)
     f = M.deserialize_host_msg if direction == "host" else M.deserialize_return_msg
     try:
-        obj = f(bytes(raw))
+        obj = f(bytes(raw) if arg is None else arg)
     except Exception as e:
         return None, None, type(e).__name__ + ": " + str(e)[:120]
     try:
         return obj, msg_to_json(obj), None
     except Exception as e:  # an object of an unexpected type / shape came back
         return obj, None, "unreadable result %s (%s)" % (type(obj).__name__, type(e).__name__)
+
+
+def _snapshot(obj):
+    try:
+        return msg_to_json(obj)
+    except Exception as e:
+        return {"unreadable": type(e).__name__}
 
 
 def run_decode_history(pool, rng, n_steps, script=None):
@@ -280,26 +331,58 @@ def run_decode_history(pool, rng, n_steps, script=None):
         last = entry
         direction, mj, raw = entry
         before = decode_order_tail()
-        obj, got, exc = guarded_decode(direction, raw)
-        steps.append({"decode": mj, "decoder": direction})
+        # the input buffer: bytes, a writable bytearray (a receive buffer), or a memoryview of either
+        # (SubroutineMessage documents and accepts `bytes` only)
+        kind = "bytes" if mj["k"] == "sub" else rng.choice(BUFFER_KINDS)
+        reuse = [r for r in live if r[4] is not None and len(r[4]) >= len(raw)]
+        if kind in ("bytearray", "memoryview-rw") and reuse and rng.random() < 0.5:
+            # the receive buffer of an earlier message is reused for this one
+            src = rng.choice(reuse)
+            snap = _snapshot(src[3])
+            buf = src[4]
+            buf[:len(raw)] = bytes(raw)
+            arg = buf if kind == "bytearray" else memoryview(buf)
+            steps.append({"reuse_input_buffer_of": live.index(src)})
+            now = _snapshot(src[3])
+            if now != snap:
+                problems.append({"step": len(steps), "what": "an earlier decoded message changed when its input "
+                                 "buffer was reused for the next message", "was": snap, "is_now": now})
+        else:
+            arg, buf = as_buffer(raw, kind)
+        obj, got, exc = guarded_decode(direction, raw, arg)
+        steps.append({"decode": mj, "decoder": direction, "buffer": kind})
         if got != mj:
             problems.append({"step": len(steps),
                              "what": ("the decoder raises on the bytes of a valid message" if obj is None else
                                       "decoded message differs from the reference decode"),
-                             "decoder": direction, "decoder_calls_before": before,
+                             "decoder": direction, "buffer": kind, "decoder_calls_before": before,
                              "bytes": list(raw)[:60], "reference": mj, "got": got, "exception": exc})
         if got is None:
             continue
-        for (_, _, _, prev) in live:
+        for (_, _, _, prev, _) in live:
             if prev is obj or any(a is b for a in mutable_parts(prev) for b in mutable_parts(obj)):
                 problems.append({"step": len(steps), "what": "two decoded messages share a mutable part",
                                  "reference": mj})
         if got != mj:
             continue                          # not a faithful object: do not build further steps on it
-        rec = [direction, mj, [], obj]
+        rec = [direction, mj, [], obj, buf]
         live.append(rec)
         if script is not None:
             continue
+        # overwrite an input buffer after the fact (the caller owns it): no decoded message may change
+        writable = [r for r in live if r[4] is not None]
+        if writable and rng.random() < 0.5:
+            tgt = rng.choice(writable)
+            snaps = [_snapshot(r[3]) for r in live]
+            how = rng.choice(["zeros", "ones", "random"])
+            for k in range(len(tgt[4])):
+                tgt[4][k] = {"zeros": 0, "ones": 255, "random": rng.randrange(256)}[how]
+            steps.append({"overwrite_input_buffer_of": live.index(tgt), "with": how})
+            for r, sn in zip(live, snaps):
+                now = _snapshot(r[3])
+                if now != sn:
+                    problems.append({"step": len(steps), "what": "a decoded message changed when an input buffer "
+                                     "was overwritten", "decoded_index": live.index(r), "was": sn, "is_now": now})
         # edit some decoded object in place (the holder of a result fills it in / post-processes it)
         for _k in range(rng.randrange(0, 3)):
             tgt = rng.choice(live)
